@@ -194,6 +194,7 @@ func {T}.WriteTo
   ensures [C19.writeto-empty] implies(old(len({r}.buf) <= {r}.off), n == 0 && err == nil && len({r}.buf) == 0 && {r}.off == 0 && ghost.ioN == old(ghost.ioN))
   ensures [C19.writeto-once] implies(old(len({r}.buf) > {r}.off), ghost.ioN == old(ghost.ioN) + 1 && ghost.ioArg == old(ident({r}.buf[{r}.off:])) && ghost.ioDest == ident(w))
   ensures [C19.writeto-result] implies(old(len({r}.buf) > {r}.off), n == ghost.ioRet && implies(!isnil(ghost.ioErr), err == ghost.ioErr) && implies(isnil(ghost.ioErr) && n != old(len({r}.buf) - {r}.off), err == io.ErrShortWrite) && implies(isnil(ghost.ioErr) && n == old(len({r}.buf) - {r}.off), err == nil && len({r}.buf) == 0 && {r}.off == 0))
+  ensures [C19.writeto-consumed] implies(old(len({r}.buf) > {r}.off) && !(isnil(ghost.ioErr) && n == old(len({r}.buf) - {r}.off)), len({r}.buf) - {r}.off == old(len({r}.buf) - {r}.off) - n)
   ensures [C19.writeto-lastread] {r}.lastRead == opInvalid
 
 func {T}.ReadFrom
